@@ -437,7 +437,7 @@ pub fn c02() -> CheckDef {
                 what: "loss-free link (latency 0.1-100 ms, jitter, duplicates), one side streams Reliable packets every 3 ms .. timeout/3 for 2-4 (thorough: 2-8) silence timeouts (1.5-25 s), the other side only acknowledges, with its keepalive off, slower than the timeout, or on: nothing may end the connection, so every packet has to arrive" }],
         panic_is_violation: no_panics,
         hang_is_violation: false,
-        quick_runs: 1500,
+        quick_runs: 3000,
         thorough_runs: 40_000,
         rule: "one case = one simulated run; distinct = distinct run digest; non-trivial = at least 10 packets delivered",
         real_code: REAL_A,
@@ -658,7 +658,7 @@ pub fn c03() -> CheckDef {
         ],
         panic_is_violation: all_panics,
         hang_is_violation: true,
-        quick_runs: 6000,
+        quick_runs: 12000,
         thorough_runs: 300_000,
         rule: "one case = one simulated run; oracle = no panic located in uflow and every call returns (wall-clock watchdog, confirmed in a child process under an alarm); distinct = distinct run digest; non-trivial = every run (all of them deliver hostile or faulty traffic)",
         real_code: "World A families: HalfConnection and below; World B family: Client, Server, RemoteClient, event queue, UdpFrameSink and everything below",
@@ -1032,7 +1032,7 @@ pub fn c05() -> CheckDef {
             what: "order-preserving loss-free link (fixed or varying latency 0.05 ms..3 s), both directions, bursts beyond the flush budget and both windows, arbitrary cadences and stalls, all initial ids; delivered sequence must equal submitted sequence minus sender-dropped TimeSensitive packets" }],
         panic_is_violation: all_panics,
         hang_is_violation: false,
-        quick_runs: 1500,
+        quick_runs: 3000,
         thorough_runs: 40_000,
         rule: "one case = one simulated run; distinct = distinct run digest; non-trivial = at least 10 packets delivered",
         real_code: REAL_A,
@@ -1166,7 +1166,7 @@ pub fn c06() -> CheckDef {
         ],
         panic_is_violation: panics_in_packet_sender,
         hang_is_violation: false,
-        quick_runs: 2500,
+        quick_runs: 4000,
         thorough_runs: 50_000,
         rule: "one case = one simulated run; distinct = distinct run digest; non-trivial = at least 10 limit checks (sender half) or 10 heap measurements after hostile traffic (receiver half)",
         real_code: REAL_A,
@@ -1276,7 +1276,7 @@ pub fn c12() -> CheckDef {
             what: "mixed modes, packets cut across flushes, acks arriving between fragments, losses and duplicates; every (packet id, fragment id) occurrence on the wire is attributed to its submission: Unreliable/TimeSensitive at most once, TimeSensitive begun by the first step() after send(), nothing re-emitted after its acknowledgement was processed or after the receiver moved past the packet" }],
         panic_is_violation: no_panics,
         hang_is_violation: false,
-        quick_runs: 2000,
+        quick_runs: 8000,
         thorough_runs: 50_000,
         rule: "one case = one simulated run; distinct = distinct run digest; non-trivial = at least 10 fragments seen on the wire",
         real_code: REAL_A,
@@ -1426,7 +1426,7 @@ pub fn c13() -> CheckDef {
             what: "ceilings 1472 B/s..50 MB/s on either side, backlogs of hundreds to thousands of packets, cadences from several flushes per step to seconds between steps, pauses, loss and feedback patterns; every window of data/sync/ack frames is checked against ceiling x (duration + largest RTT estimate held) + 1472" }],
         panic_is_violation: no_panics,
         hang_is_violation: false,
-        quick_runs: 2000,
+        quick_runs: 6000,
         thorough_runs: 50_000,
         rule: "one case = one simulated run; distinct = distinct run digest; non-trivial = at least 20 frames emitted",
         real_code: REAL_A,
@@ -1638,7 +1638,7 @@ pub fn c15() -> CheckDef {
             what: "twin runs: the same plan with and without extra ack frames delivered to one sender - groups over known frames with the wrong parity, groups touching only unknown frames (beyond the next id / behind the log), exact copies of genuine ack frames replayed 1 us..2 min after the original was consumed, genuine groups re-packed into a new frame; the window-base fields equal what the sender already holds" }],
         panic_is_violation: no_panics,
         hang_is_violation: false,
-        quick_runs: 3000,
+        quick_runs: 6000,
         thorough_runs: 40_000,
         rule: "one case = one pair of simulated runs (baseline and twin, same seed so nonces and fates coincide); distinct = distinct combined digest; non-trivial = at least 3 extra ack frames reached the sender and at least 20 of its calls were compared",
         real_code: REAL_A,
@@ -1687,7 +1687,7 @@ pub fn c07() -> CheckDef {
         ],
         panic_is_violation: no_panics,
         hang_is_violation: false,
-        quick_runs: 1200,
+        quick_runs: 6000,
         thorough_runs: 30_000,
         rule: "one case = one simulated run; distinct = distinct run digest; non-trivial = at least one Connect was checked against the nonces on the wire or one refusal was checked",
         real_code: REAL_B,
@@ -1716,7 +1716,7 @@ pub fn c08() -> CheckDef {
             what: "1-4 clients, random interleavings of send / disconnect / disconnect_now / Server::drop / step / flush on both endpoints, client crash and restart, loss and duplication aimed at handshake and disconnect frames, blackouts, active timeouts 1-20 s racing the disconnect retries, skewed clocks, stalls, stray handshake frames (foreign versions, other nonces, incompatible limits, stray ACKs) from the clients' own addresses during the connection's life" }],
         panic_is_violation: no_panics,
         hang_is_violation: false,
-        quick_runs: 1500,
+        quick_runs: 8000,
         thorough_runs: 40_000,
         rule: "one case = one simulated run; distinct = distinct run digest; non-trivial = at least one Connect event",
         real_code: REAL_B,
@@ -1748,7 +1748,7 @@ pub fn c17() -> CheckDef {
         ],
         panic_is_violation: no_panics,
         hang_is_violation: false,
-        quick_runs: 1200,
+        quick_runs: 6000,
         thorough_runs: 30_000,
         rule: "one case = one simulated run; limit pair = f(run index); distinct = distinct run digest; non-trivial = at least 10 server probes and one connected client",
         real_code: REAL_B,
@@ -1781,7 +1781,7 @@ pub fn c18() -> CheckDef {
             what: "1-5 spoofable addresses that never return a nonce: valid 1472-byte SYNs (repeated, same or fresh nonce), undersized CRC-valid SYNs (length swept over 5..1471 across runs), wrong-version, configuration-refused and capacity-refused SYNs, stray frames of every other type, bursts of 80-400 small stray frames of one type right after a valid SYN, 'promote me' attempts (a SYN with a self-chosen nonce followed by data / ack / sync frames numbered with it), an attacker that extrapolates the server's next nonce from the two its own addresses were handed and acknowledges in the name of a third address, a server application that sends 20 kB to every address it believes connected every few seconds, gaps up to 25 s (beyond the handshake timeout); servers with and without free capacity; the violation is the payload-byte balance, the balance with 28 header bytes per datagram is reported as a measurement" }],
         panic_is_violation: no_panics,
         hang_is_violation: false,
-        quick_runs: 2000,
+        quick_runs: 10000,
         thorough_runs: 60_000,
         rule: "one case = one simulated run; distinct = distinct run digest; non-trivial = at least one datagram from an unverified address reached the server",
         real_code: REAL_B,
@@ -1807,7 +1807,7 @@ pub fn c09() -> CheckDef {
             what: "0-200 packets of mixed modes queued (30 %: followed by 1-4 Reliable packets without payload), then disconnect() (70 %) or disconnect_now() from the client or the server; loss/dup/reorder/corruption of data, ack, disconnect and disconnect-ack frames; total or one-way blackout starting right after the call (sometimes healing); the peer passive or (15 %) disconnecting as well; active timeouts 2-20 s" }],
         panic_is_violation: no_panics,
         hang_is_violation: false,
-        quick_runs: 3000,
+        quick_runs: 8000,
         thorough_runs: 40_000,
         rule: "one case = one simulated run; distinct = distinct run digest; non-trivial = a flush guarantee or a termination deadline was evaluated",
         real_code: REAL_B,
@@ -1847,7 +1847,7 @@ pub fn c10() -> CheckDef {
         ],
         panic_is_violation: no_panics,
         hang_is_violation: false,
-        quick_runs: 1400,
+        quick_runs: 3000,
         thorough_runs: 35_000,
         rule: "one case = one simulated run; k lost handshake frames = (run index / 2) mod 11; distinct = distinct run digest; non-trivial = at least 10 steps of an established connection were checked for promptness, or a retry budget was evaluated",
         real_code: REAL_B,
@@ -2162,7 +2162,7 @@ pub fn c19() -> CheckDef {
             what: "multi-fragment sizes that are not multiples of the fragment size in every mode; delivered, skipped, window advanced over partial packets (loss of Unreliable/Persistent fragments), connection dropped mid-transfer; a layout-checking allocator watches every deallocation, and after dropping every endpoint the bytes they allocated must all be back" }],
         panic_is_violation: no_panics,
         hang_is_violation: false,
-        quick_runs: 2000,
+        quick_runs: 8000,
         thorough_runs: 50_000,
         rule: "one case = one simulated run; distinct = distinct run digest; every run ends with a teardown check",
         real_code: REAL_A,
@@ -2227,7 +2227,7 @@ pub fn c20() -> CheckDef {
             what: "mixed traffic with many TimeSensitive packets, window and allocation stalls, ack loss; after every call send_buffer_size() must equal accepted - acknowledged - discarded" }],
         panic_is_violation: overflow_in_sender,
         hang_is_violation: false,
-        quick_runs: 2000,
+        quick_runs: 8000,
         thorough_runs: 50_000,
         rule: "one case = one simulated run; distinct = distinct run digest; non-trivial = at least 10 packets delivered",
         real_code: REAL_A,
